@@ -437,6 +437,32 @@ def other_generators(run):
         if len(s) * math.log2(len(LS.DEFAULT_CHARS)) + 1e-9 < bits:
             run.violation("C06|libpass.generate_salt_by_entropy|entropy-short", f"{bits} bits requested, {len(s)} symbols", dict(bits=bits, value=s))
         run.case(("libpass.salt_by_entropy", bits), dict(helper="generate_salt_by_entropy", bits=bits, length=len(s)))
+    # ... for every alphabet, not only the default one
+    for cs_name, cs in (("hex", "0123456789abcdef"), ("binary", "01"), ("base32", "ABCDEFGHIJKLMNOPQRSTUVWXYZ234567"), ("ascii94", ALPHABETS[94]), ("ten", ALPHABETS[10]), ("three", "abc")):
+        for bits in (1, 7, 8, 31, 64, 100, 128, 255, 256):
+            try:
+                sv = LS.generate_salt_by_entropy(bits, chars=cs)
+            except TypeError:
+                sv = LS.generate_salt_by_entropy(bits, cs)
+            run.count("libpass_salt_by_entropy_alphabets")
+            run.case(("libpass.salt_by_entropy", cs_name, bits > 64), dict(helper="generate_salt_by_entropy", alphabet=cs_name, bits=bits, length=len(sv)))
+            if len(sv) * math.log2(len(cs)) + 1e-9 < bits or any(c not in cs for c in sv):
+                run.violation("C06|libpass.generate_salt_by_entropy|entropy-short", f"{bits} bits requested over the {cs_name} alphabet: {len(sv)} symbols = {len(sv) * math.log2(len(cs)):.1f} bits",
+                              dict(bits=bits, alphabet=cs_name, value=sv))
+    # cisco_type7: the salt is a key offset drawn from the documented range 0..15 - every value must come up, about equally often
+    import passlib.hash as PH
+    seen = {}
+    n7 = 4000
+    for _ in range(n7):
+        hs = PH.cisco_type7.hash("pw")
+        seen[hs[:2]] = seen.get(hs[:2], 0) + 1
+    run.case(("cisco_type7", "salt-values"), dict(hasher="cisco_type7", hashes=n7, distinct_salts=len(seen)))
+    run.count("cisco_type7_salts", n7)
+    want = {"%02d" % v for v in range(16)}
+    exp = n7 / 16
+    worst = max(abs(seen.get(k, 0) - exp) for k in want)
+    if set(seen) != want or worst > 8 * (exp * 15 / 16) ** 0.5:
+        run.violation("C06|cisco_type7|salt-values-not-uniform-over-0..15", f"cisco_type7 salts over {n7} hashes: {dict(sorted(seen.items()))} (declared space 00..15, expected about {exp:.0f} each)", dict(counts=seen))
 
 
 def pinned_salt(run):
